@@ -5,7 +5,7 @@
    the correspondence compares hex-exactly with the files. *)
 From Coq Require Import String Ascii.
 From Coq Require Import List NArith ZArith QArith Bool Floats Permutation Sorted.
-From Pcfg Require Import ProbAlg F64 TextFile Counters CountersProofs IoFloatFacts IoFacts.
+From Pcfg Require Import ProbAlg F64 TextFile Counters CountersProofs IoFloatFacts CountersF64 IoFacts.
 Import ListNotations.
 
 (* A list written from the tally of an item sequence: the lines are
@@ -88,6 +88,24 @@ Theorem C06_F64_division_monotone : forall a b t : PrimFloat.float, okF a -> okF
   (a / t <=? b / t)%float = true /\ unitF (b / t).
 Proof. exact (fun a b t Ha Hb Ht H0 Hab Hbt => conj (pdiv_mono_F a b t Ha Hb Ht H0 Hab Hbt) (pdiv_unit_F b t Hb Ht H0 Hbt)). Qed.
 
+(* binary64, whole list: what calculate_probabilities writes from finite
+   non-negative counts not exceeding their positive total is sorted
+   non-increasing with every probability in [0,1] (the shape C01's wf assumes
+   of a loaded list); the hypotheses are evaluated on every trained counter by
+   the correspondence (IoCorr.check_counter_file / check_struct_files) *)
+Theorem C06_F64_sorted_unit : forall c : counter FNum,
+  Forall (fun kv => okbF (snd kv) = true /\ (snd kv <=? total c)%float = true) c ->
+  okbF (total c) = true -> (0 <? total c)%float = true ->
+  Sorted prob_desc (calc_probs c) /\ Forall (fun kv => unitbF (snd kv) = true) (calc_probs c).
+Proof. exact calc_probs_F64_wf. Qed.
+
+Theorem C06_F64_example :
+  let c : counter FNum := [([97], 2%float); ([98], 2%float); ([99], 1%float)]%N in
+  Forall (fun kv => okbF (snd kv) = true /\ (snd kv <=? total c)%float = true) c /\
+  okbF (total c) = true /\ (0 <? total c)%float = true /\
+  map snd (calc_probs c) = [0x1.999999999999ap-2%float; 0x1.999999999999ap-2%float; 0x1.999999999999ap-3%float].
+Proof. exact calc_probs_F64_demo. Qed.
+
 (* the hypotheses are satisfiable on non-trivial instances: a tally with a tie,
    its probabilities 2/5 2/5 1/5 summing to 1; coverage 3/5 gives P(M) = 2/5 *)
 Theorem C06_example_tally : tally ex_items = [([65;49], 2); ([68;50], 2); ([79;49], 1)]%N.
@@ -102,3 +120,4 @@ Print Assumptions C06_markov_count.
 Print Assumptions C06_unsupported_only_raw.
 Print Assumptions C06_deterministic.
 Print Assumptions C06_F64_division_monotone.
+Print Assumptions C06_F64_sorted_unit.
